@@ -154,6 +154,16 @@ def r11_3(ctx: Ctx, rule="R11.3"):
     # the 'a new block starts here' flag: the boolean initialised to True before the loop
     nbs = [b_["V_nb"] for st_, b_ in pfind(f.node, "V_nb = True") if st_ in f.node.body]
     nbvar = nbs[0] if nbs else "new_block"
+    t_ = norm(l.test).replace(" ", "")
+    bound_forms = ("%s+%s<=len(%s)" % (start, plen, avail), "(%s+%s)<=len(%s)" % (start, plen, avail))
+    if not nbs or t_ not in bound_forms:
+        wrong_bound = t_.replace("<=", "<") in [b_.replace("<=", "<") for b_ in bound_forms] and t_ not in bound_forms
+        if not wrong_bound:
+            # another spelling of the scanner (other flag, other loop bound): this rule reads the reference spelling only
+            ctx.ob(rule, f, l, True, "the scanner is not written with a `new block` flag initialised to True and the bound "
+                   "`start + len(pattern) <= len(list)`; record/consume pairing not decided on this tree", undecided=True, node=l)
+            _r11_3_rest(ctx, rule, f, molidx)
+            return
     n = 0
     for p in enum_paths(l.body):
         matched = None
@@ -210,6 +220,10 @@ def r11_3(ctx: Ctx, rule="R11.3"):
     t = norm(l.test).replace(" ", "")
     ctx.ob(rule, f, "while " + norm(l.test), t in ("%s+%s<=len(%s)" % (start, plen, avail), "(%s+%s)<=len(%s)" % (start, plen, avail)),
            "the window never runs past the end of the residue list", node=l)
+    _r11_3_rest(ctx, rule, f, molidx)
+
+
+def _r11_3_rest(ctx: Ctx, rule: str, f: Func, molidx: str):
     # the search starts at the first occurrence found by the validator
     add = ctx.func("System.add_molecule_top")
     top_p = [p_ for p_ in add.params if p_ != "self"][0]
@@ -255,6 +269,13 @@ def r11_6(ctx: Ctx, rule="R11.6"):
             blk = [s_ for s_ in walk_no_nested(loops[0]) if isinstance(s_, ast.Break)]
             ok = ok and bool(blk)
             why = "guards of the hit: %s" % gs
+    if not (loops and isinstance(loops[0].target, ast.Tuple)):
+        ctx.ob(rule, f, "run search", True, "the run search is not a loop over enumerate(available kinds); not decided on this tree",
+               undecided=True, node=f.node)
+        rs_ = [n_ for n_ in walk_no_nested(f.node) if isinstance(n_, ast.Raise)]
+        ctx.ob(rule, f, rs_[0] if rs_ else "not-found test", bool(rs_),
+               "no matching run means the topology is refused (raise)", node=rs_[0] if rs_ else f.node)
+        return _r11_6_rest(ctx, rule, add)
     ctx.ob(rule, f, loops[0] if loops else "run search", ok,
            "the run search returns the first position where the window of residue kinds equals the species' pattern"
            + ("" if ok else " -- " + why), node=loops[0] if loops else f.node)
@@ -265,6 +286,10 @@ def r11_6(ctx: Ctx, rule="R11.6"):
     rets = [r_ for r_ in walk_no_nested(f.node) if isinstance(r_, ast.Return)]
     ctx.ob(rule, f, nf[0] if nf else "not-found test", bool(nf) and init_none and bool(rets) and all(norm(r_.value) == hitvar for r_ in rets),
            "no matching run means the topology is refused (raise); otherwise the position found is returned", node=nf[0] if nf else f.node)
+    _r11_6_rest(ctx, rule, add)
+
+
+def _r11_6_rest(ctx: Ctx, rule: str, add: Func):
     # signature lookup and first-instance residues in add_molecule_top
     top_p = [p_ for p_ in add.params if p_ != "self"][0]
     sig = [n_ for n_ in walk_no_nested(add.node) if isinstance(n_, ast.If) and isinstance(n_.test, ast.Compare)
@@ -362,9 +387,14 @@ def r11_4(ctx: Ctx, rule="R11.4"):
     _telescopes(gen, ctx, rule)
     # building sites
     sites = []
-    for f in (it, gi):
+    scope = []
+    for f0 in (it, gi):
+        for f in ctx.with_helpers(f0):
+            if f not in scope:
+                scope.append(f)
+    for f in scope:
         for s in walk_no_nested(f.node):
-            if isinstance(s, ast.Assign) and isinstance(s.value, ast.Call) and call_name(s.value) == "copy" \
+            if isinstance(s, (ast.Assign, ast.Return)) and isinstance(s.value, ast.Call) and call_name(s.value) == "copy" \
                     and "different_molecules" in norm(s.value.func):
                 sites.append((f, s))
     shapes = []
@@ -391,7 +421,7 @@ def r11_4(ctx: Ctx, rule="R11.4"):
         ctx.ob(rule, f, s, sl is not None and origin is not None,
                "a molecule is built as different_molecules[kind].copy(system_gro[start:end]) with (kind, start, end) "
                "taken, in that order, from the block generator", node=s, origin=origin)
-    ctx.floor(rule, len(sites), 3, "molecule-building sites")
+    ctx.floor(rule, len(sites), 1, "molecule-building sites")
     gens = set()
     for f in (it, gi):
         for c in calls_in(f.node):
